@@ -400,7 +400,10 @@ class Lysosome:
         if not self.silent:
             print(f"[Lysosome] Auto-digesting {len(self._queue)} items")
         # Process half the queue
-        self.digest(max_items=len(self._queue) // 2)
+        result = self.digest(max_items=len(self._queue) // 2)
+        # Nobody receives this DigestResult: report each failed item here
+        for error in result.errors:
+            _logger.warning(f"Auto-digest: {error}")
 
     def get_statistics(self) -> dict:
         """Get lysosome statistics."""
